@@ -249,3 +249,27 @@ SERDE_LAYOUTS = {
     'INTERVAL_DT_FORMATTER': 'DD HH24:MI:SS.FF6',
     'ORACLE_DATE_FORMATTER': 'YYYY-MM-DD HH24:MI:SS',
 }
+
+
+def c06_widths(rep, facts):
+    """the parser reads at most as many digits per field as the formatter can write for the type, and exactly
+    the documented widths (adjacent fields are split by these widths)"""
+    want = {
+        'YEAR_MAX_LENGTH': {'interval::IntervalYM': 9, None: 4},      # 178000000 years
+        'MONTH_MAX_LENGTH': {None: 2},
+        'DAY_MAX_LENGTH': {'interval::IntervalDT': 9, None: 2},       # 100000000 days
+        'HOUR_MAX_LENGTH': {None: 2}, 'MINUTE_MAX_LENGTH': {None: 2}, 'SECOND_MAX_LENGTH': {None: 2},
+        'DAY_OF_YEAR_MAX_LENGTH': {None: 3},
+    }
+    seen = 0
+    for c in facts.dtf_consts:
+        w = want.get(c['name'])
+        if w is None:
+            continue
+        seen += 1
+        v = c['val'].get('v')
+        exp = w.get(c['self_ty'], w[None])
+        rep.ob(f"E3|{c['name']}|{c['self_ty']}", v == exp, f"{c['name']} for {c['self_ty']} is {v}; the widest value the formatter writes for that field has {exp} digits", rule='E3-width')
+    if seen < 7 * 5:
+        raise AnalysisIncomplete(f"width rule saw only {seen} associated constants")
+    rep.sample({'rule': 'field widths reader = writer', 'constants': seen})
